@@ -10,6 +10,8 @@
 (*   quiet   all loops have completed further passes: nothing else may be owed, state as above        *)
 (*   batch   several subscription calls made in one task of a loop                                    *)
 (*   hold / release   a loop thread is kept busy in a task (deliveries queue up) / let go              *)
+(*   race    two loops make one subscription call each at the same time                               *)
+(*   noraise a signal was not sent because the current disposition is SIG_DFL or has SA_RESETHAND      *)
 (*   end     loops destroyed                                                                          *)
 (* A Fault line (crash, sanitizer report, uncaught exception) matches nothing.                        *)
 EXTENDS Signals, Integers, Json, IOUtils
@@ -103,6 +105,10 @@ TNext ==
   \/ TRead
   \/ TQuiet
   \/ IsEv("batch") /\ Ev.L \in Loops /\ SBatch(Ev.L, Ev.ops) /\ Post
+  \/ IsEv("race") /\ Ev.La \in Loops /\ Ev.Lb \in Loops /\ SRace(Ev.La, Ev.ops[1], Ev.Lb, Ev.ops[2]) /\ Post
+  \* the driver did not send the signal because the current disposition would end the process (SIG_DFL) or be reset by the
+  \* kernel (SA_RESETHAND): legitimate only if nobody is subscribed and that IS the pre-existing disposition
+  \/ IsEv("noraise") /\ Ev.s \in Sigs /\ k.disp[Ev.s] = Orig(Ev.s) /\ NoRaise(kind[Ev.s]) /\ Same
   \/ IsEv("hold") /\ Ev.L \in Loops /\ SHold(Ev.L)
   \/ IsEv("release") /\ Ev.L \in Loops /\ SRelease(Ev.L)
   \/ IsEv("end") /\ (\A e \in Events : st[e] \in {"none", "absent"}) /\ Same /\ PostD
